@@ -128,6 +128,18 @@ def scenario_key(sc):
 # ----------------------------------------------------------------------------
 # running TLC on one family
 # ----------------------------------------------------------------------------
+def last_coverage(stdout):
+    """TLC prints interim coverage reports on runs longer than a minute; only the final
+    block counts (summing the blocks would double-count)."""
+    i = stdout.rfind("The coverage statistics at")
+    cov = {}
+    if i >= 0:
+        for m in re.finditer(r"<(\w+) line \d+, col \d+ to line \d+, col \d+ of module \w+>: (\d+):(\d+)", stdout[i:]):
+            a = cov.get(m.group(1), (0, 0))
+            cov[m.group(1)] = (a[0] + int(m.group(2)), a[1] + int(m.group(3)))
+    return cov
+
+
 def run_family(family, n, loops=False, vals=(1, 2), inf=3, types=(1, 2), probs=((1, 2),),
                given=(), walk=False, workers=4, timeout=3000):
     """family: key of INIT.  given: scenarios (dicts) for family "GIVEN".
@@ -164,6 +176,7 @@ def run_family(family, n, loops=False, vals=(1, 2), inf=3, types=(1, 2), probs=(
     if res.violation:
         raise MachineryFailure("Percolation.tla is inconsistent with itself (%s, N=%d): %s"
                                % (family, n, res.violation))
+    res.coverage = last_coverage(res.stdout)
     recs = [parse_record(r, n, inf) for r in res.printed("C17")]
     m = re.search(r"Finished computing initial states: (\d+) distinct state", res.stdout)
     ninit = int(m.group(1)) if m else -1
